@@ -28,6 +28,7 @@ type env struct {
 	r     *h.Result
 	d     *h.Driver
 	rnd   *h.Rand
+	w     *h.RecvWorker
 	known map[string]int // failures with a known signature written out so far, per operation
 	goods [][]byte // well-formed messages generated for the current case
 }
@@ -312,34 +313,37 @@ func (e *env) hostileCase() *streamCase {
 	return sc
 }
 
-// run feeds the case to a real channel and returns the canonical results of Receive.
+// run feeds the case to a real channel (in the worker process) and returns the
+// canonical results of Receive.
 func (e *env) run(sc *streamCase) ([]string, bool) {
-	ack := h.RecvAck(65535, 65535, sc.maxChunks, sc.maxMsg)
-	rc, err := h.OpenRecvChannel(h.RecvNoneConfig(), ack, sc.server, 11, 22, 1, nil, nil)
-	if err != nil {
-		e.r.InfraError = "OpenRecvChannel: " + err.Error()
-		return nil, false
-	}
-	defer rc.Close()
 	frames := make([][]byte, len(sc.chunks))
 	for i, c := range sc.chunks {
 		frames[i] = c.Raw()
 	}
-	werr := make(chan error, 1)
-	go func() { werr <- h.RecvWriteAll(rc.Peer, frames) }()
-	out, ok := h.RecvDrain(rc, len(sc.chunks)+2, 20*time.Second)
-	if err := <-werr; err != nil {
-		e.r.InfraError = "reference writer: " + err.Error()
+	job := &h.RecvJob{Setup: "open", Server: sc.server, Ack: []uint32{65535, 65535, sc.maxChunks, sc.maxMsg}, ChannelID: 11, TokenID: 22, Frames: frames, DeadlineMs: 20000}
+	res := e.w.Do(job)
+	if res.Outcome == "timeout" { // a loaded machine: once more
+		res = e.w.Do(job)
+	}
+	switch {
+	case res.Outcome == "ok":
+	case strings.HasPrefix(res.Outcome, "panic") || strings.HasPrefix(res.Outcome, "crash"):
+		// the receive path died on this stream (a fatal error such as out of memory kills the worker)
+		e.r.Count(e.caseLine(sc), true)
+		if sc.conforming {
+			e.fail(e.caseLine(sc), "", "Receive does not survive a conforming stream: "+res.Outcome)
+		} else {
+			e.r.Disagree(e.caseLine(sc), "(model: results, no crash)", res.Outcome)
+		}
+		return nil, false
+	default:
+		e.r.InfraError = "worker: " + res.Outcome
 		return nil, false
 	}
-	if !ok {
-		e.r.InfraError = "Receive did not reach EOF in time"
-		return nil, false
+	if sc.conforming && res.Entries != 0 {
+		e.fail(e.caseLine(sc), "", fmt.Sprintf("%d request ids still buffered after a complete conforming stream", res.Entries))
 	}
-	if entries, _, _ := rc.SC.VerifChunkTable(); sc.conforming && entries != 0 {
-		e.r.Fail(e.caseLine(sc), "", fmt.Sprintf("%d request ids still buffered after a complete conforming stream", entries))
-	}
-	return out, true
+	return res.Results, true
 }
 
 func (e *env) caseLine(sc *streamCase) string {
@@ -546,6 +550,7 @@ func (e *env) replay(line string) {
 }
 
 func main() {
+	h.RecvWorkerMain()
 	o := h.ParseOpts()
 	r := h.NewResult("C12", o)
 	d, err := h.StartDriver(o.Driver)
@@ -555,7 +560,8 @@ func main() {
 		return
 	}
 	defer d.Close()
-	e := &env{o: o, r: r, d: d, rnd: h.NewRand(o.Seed)}
+	e := &env{o: o, r: r, d: d, rnd: h.NewRand(o.Seed), w: h.StartRecvWorker(3 << 20)}
+	defer e.w.Close()
 	r.Rule = "A: case = list of (sequence number, payload) → real mergeChunks vs Lean mergeChunks; non-trivial = ≥ 2 chunks. " +
 		"B: case = (MaxChunkCount, MaxMessageSize, chunk stream) → results of the real Receive on a None-mode channel (client and server kind) over loopback TCP vs Lean Recv.step, the decoder applied to the model's merged bytes is the real ua.DecodeService; conforming streams (reference sender: 1-4 messages, 1-6 chunks each, random interleaving, aborts, numbering from {0,1,…,4294967295} with wrap to {0,1,5,1023}) also pass the property oracle; hostile streams (duplicates, equal numbers, limits 0, odd chunk types, bad abort bodies) only the model comparison. non-trivial = ≥ 2 chunks; distinct by full text"
 
